@@ -50,7 +50,7 @@ def ast_hash(node):
     return hashlib.sha256(ast.dump(node, include_attributes=False).encode()).hexdigest()[:16]
 
 
-def verify_contract(c, src_index, unroll=0, timeout_ms=20000, registry=REGISTRY, max_paths=4000, known=(), pinned=None, budget_s=600):
+def verify_contract(c, src_index, unroll=0, timeout_ms=20000, registry=REGISTRY, max_paths=4000, known=(), pinned=None, budget_s=600, shard=None):
     """returns dict(name, obligations[], paths, errors[], secs, ...)"""
     t0 = time.time()
     ex = Explorer(timeout_ms, max_paths)
@@ -87,6 +87,11 @@ def verify_contract(c, src_index, unroll=0, timeout_ms=20000, registry=REGISTRY,
                     vacuous = True
                     ex.errors.append('precondition is unsatisfiable (vacuous contract)')
                     break
+            if shard is not None and not pinned:
+                # case-sharded verification: this worker owns the setup cases whose decision vector hashes to its index
+                k_, n_ = shard
+                if sum((i + 1) * (d if isinstance(d, int) else 1) for i, d in enumerate(run.decisions)) % n_ != k_:
+                    raise PathEnd('case owned by another shard')
             cx.old_heap = run.heap
             cx.entry = dict(p)
             f = it.function_from_real(fn)
@@ -109,7 +114,7 @@ def verify_contract(c, src_index, unroll=0, timeout_ms=20000, registry=REGISTRY,
         except Unsupported as u:
             ex.errors.append(f'unsupported: {u} [trace {run.trace[-6:]}]')
         except z3.Z3Exception as e:
-            ex.errors.append(f'z3 error: {e} {traceback.format_exc(limit=4)}')
+            ex.errors.append(f'z3 error: {e} {traceback.format_exc(limit=-6)}')
         except (ReturnSig, BreakSig, ContinueSig) as e:
             ex.errors.append(f'stray control-flow signal {type(e).__name__}')
         except Exception as e:       # engine bug: never a verdict
